@@ -223,7 +223,8 @@ def gen_raw_ops(rng, async_stop=0):
             elif rng.random() < 0.8:
                 continue
             if tid < ntr:
-                ops.append(("resume", tid, gen_run(rng, clock, tid, runs.get(tid, 1), 0, 6, shuffle)))
+                ops.append(("resume", tid, gen_run(rng, clock, tid, runs.get(tid, 1), 0, 6, shuffle),
+                            rng.choice([0, 0, 1, 2])))
                 runs[tid] = runs.get(tid, 1) + 1
                 if marks.get(tid) == "pause":
                     marks[tid] = None
@@ -246,8 +247,10 @@ def run_raw_ops(ops, async_stop=0, after_stop=None):
                 b.queue_run(None, as_dicts(op[1]))
                 b.start_trial({"n": 0})
             elif op[0] == "resume":
-                b.next_run = [as_dicts(op[2])]
+                b.next_run, b.next_eager = [as_dicts(op[2])], [op[3] if len(op) > 3 else 0]
                 b.resume_trial(op[1])
+                if b.last_eager:
+                    mops.append(("emit", op[1], b.last_eager))
             elif op[0] == "emit":
                 b.emit(op[1], op[2])
             elif op[0] == "finish":
@@ -391,17 +394,19 @@ class Policy:
                 s = ["resume", tid, [list(r) for r in self._gen_reps(tid, self.nruns[tid], 0 if self.rng.random() < 0.1 else 1)]]
             else:
                 s = ["start", [list(r) for r in self._gen_reps(trial_id, 0, 1)]]
+            if not self.sim and self.rng.random() < self.p.get("p_eager", 0.3):
+                s.append(self.rng.randint(1, 2))     # a fast job: its first report(s) are written right at launch
         self.rec["suggest"].append(s)
         if s[0] == "none":
             return None
         if s[0] == "start":
             self.nruns[trial_id] = 1
-            return ("start", self._mk([tuple(r) for r in s[1]]))
+            return ("start", self._mk([tuple(r) for r in s[1]]), s[2] if len(s) > 2 else 0)
         tid = s[1]
         if tid in self.paused:
             self.paused.remove(tid)
         self.nruns[tid] = self.nruns.get(tid, 1) + 1
-        return ("resume", tid, self._mk([tuple(r) for r in s[2]]))
+        return ("resume", tid, self._mk([tuple(r) for r in s[2]]), s[3] if len(s) > 3 else 0)
 
     def decide(self, trial_id, result):
         if self.script is not None:
